@@ -1618,8 +1618,10 @@ fn run_walk_stack(a: &Arch, c: &Case) -> Result<String, String> {
 /// labelled `$rsp:` overwrites or clears the value the frame reports).
 fn glue(c: &Case, a: &Arch, st: Option<(u64, u64, Vec<(String, u64)>)>) -> String {
     let Some((_, sp, leaf, strip)) = &c.stack else { return "bad-op".into() };
+    // `memory_range()`: None for an empty memory and when `base.checked_add(size)` overflows (a region
+    // ending exactly at 2^64 included)
     let in_stack = !c.mem.is_empty()
-        && c.mem_base.checked_add(c.mem.len() as u64 - 1).is_some()
+        && c.mem_base.checked_add(c.mem.len() as u64).is_some()
         && *sp >= c.mem_base
         && *sp - c.mem_base < c.mem.len() as u64;
     let Some((cfa0, ra0, mut regs)) = st else { return "nocfi".into() };
